@@ -161,4 +161,65 @@ example : (Gen.Trans.checkLifetime (d := infinity + 1)).isSome = false ∧ Model
     ∧ (Gen.Trans.checkLifetime (d := infinity)).isSome = true ∧ Model.lifetimeInRange infinity = true := by
   decide
 
+/-! ### `parseInterface` — the interface-level validation (tools/extract/translate_iface.go)
+
+`Gen.Trans.parseInterface` is `config.parseInterface` re-translated on every run over the model's
+record types: the monitor/advertise exclusion, the monitor short-circuit, every bound with its default,
+the order in which `min_interval`, `default_lifetime`, `preference` and the plugins are resolved, and
+the fields of the resulting `Interface`.  The package functions it calls are parameters; instantiated
+with the model's (whose own equivalences with the translated `parseMinInterval` /
+`parseDefaultLifetime` are above), the translated function IS `Model.parseInterface` — the function
+`accept_iff` (Props/C02) characterises by the documented constraints. -/
+
+theorem parseInterface_equiv (name : Nat) (ifi : Model.RawInterface) :
+    Gen.Trans.parseInterface name ifi (time_ParseDuration_orDefault := Model.parsePlainDur)
+        (parseMinInterval := Model.parseMinInterval) (parseDefaultLifetime := Model.parseDefaultLifetime)
+        (parsePreference := Model.parsePreference) (parsePlugins := Model.parsePlugins)
+      = Model.parseInterface name ifi := by
+  unfold Gen.Trans.parseInterface Model.parseInterface
+  have c1 : Gen.Config.defaultMaxInterval = 600 * second := by decide
+  have c2 : Gen.Config.maxIntervalLo = 4 * second := by decide
+  have c3 : Gen.Config.maxIntervalHi = 1800 * second := by decide
+  have c4 : Gen.Config.reachableLo = 0 * second := by decide
+  have c5 : Gen.Config.reachableHi = 1 * hour := by decide
+  have c6 : Gen.Config.retransLo = 0 * second := by decide
+  have c7 : Gen.Config.retransHi = 1 * hour := by decide
+  have c8 : Gen.Config.defaultHopLimit = 64 := by decide
+  have c9 : Gen.Config.hopLimitLo = 0 := by decide
+  have c10 : Gen.Config.hopLimitHi = 255 := by decide
+  rw [c1, c2, c3, c4, c5, c6, c7, c8, c9, c10]
+  cases hm : ifi.monitor <;> cases ha : ifi.advertise <;> simp
+  all_goals
+    cases h1 : Model.parsePlainDur ifi.maxInterval (600 * second) <;> simp
+    split
+    · rfl
+    · cases h2 : Model.parseMinInterval ifi.minInterval _ <;> simp
+      cases h3 : Model.parsePlainDur ifi.reachable 0 <;> simp
+      split
+      · rfl
+      · cases h4 : Model.parsePlainDur ifi.retransmit 0 <;> simp
+        split
+        · rfl
+        · cases h5 : ifi.hopLimit <;> simp
+          · cases h6 : Model.parseDefaultLifetime ifi.defaultLifetime _ <;> simp
+            cases h7 : Model.parsePreference ifi.preference <;> simp
+            cases h8 : Model.parsePlugins ifi _ <;> simp
+          · split
+            · rfl
+            · cases h6 : Model.parseDefaultLifetime ifi.defaultLifetime _ <;> simp
+              cases h7 : Model.parsePreference ifi.preference <;> simp
+              cases h8 : Model.parsePlugins ifi _ <;> simp
+
+/-- non-vacuity: a monitoring interface, a rejected interval, an accepted advertising interface -/
+example :
+    Gen.Trans.parseInterface 7 { monitor := true, verbose := true } Model.parsePlainDur Model.parseMinInterval
+        Model.parseDefaultLifetime Model.parsePreference Model.parsePlugins
+      = some { name := 7, monitor := true, verbose := true } ∧
+    Gen.Trans.parseInterface 7 { advertise := true, maxInterval := .lit (3 * second) } Model.parsePlainDur
+        Model.parseMinInterval Model.parseDefaultLifetime Model.parsePreference Model.parsePlugins = none ∧
+    (Gen.Trans.parseInterface 7 { advertise := true, maxInterval := .lit (10 * second), hopLimit := some 0 }
+        Model.parsePlainDur Model.parseMinInterval Model.parseDefaultLifetime Model.parsePreference
+        Model.parsePlugins).isSome = true := by
+  decide +kernel
+
 end Corerad.Props.TransC02
